@@ -20,7 +20,11 @@ Record chain := { c_motor : motor; c_J0 : qty; c_elems : list elem; c_selflock :
 Record snap := { s_pos : list qty; s_spd : list qty; s_acc : list qty;
                  s_tq : list qty; s_dtq : list qty; s_ltq : list qty;
                  s_pwm : num A; s_cur : option qty;
-                 s_locked : bool }.                                    (* ghost: the solver's private flag after the lock test *)
+                 s_locked : bool;                                      (* ghost: the solver's private flag after the lock test *)
+                 s_lock_prev : bool;                                   (* ghost: the flag before the lock test *)
+                 s_pwm_in : num A;                                     (* ghost: the duty cycle in force when the instant was computed *)
+                 s_tq0_in : option qty;                                (* ghost: the motor's net torque attribute at the lock test *)
+                 s_dt : option qty }.                                  (* ghost: None = first instant of a fresh simulation, Some dt = reached by one step dt *)
 
 (** the live attributes the next instant reads *)
 Record live := { v_pos_last : qty; v_spd_last : qty; v_acc_last : option qty; v_tq0 : option qty;
@@ -188,7 +192,7 @@ Definition ratios (c : chain) : list (num A) := map e_ratio (c_elems c).
 
 (** ** Solver._compute_powertrain_variables: one instant *)
 Definition instant (c : chain) (load : qty -> qty -> qty -> res qty) (ctl : option (list rule))
-    (J : qty) (t : qty) (first_ltq0 : option qty) (v : live) (locked : bool) : res (snap * bool) :=
+    (J : qty) (t : qty) (first_ltq0 : option qty) (v : live) (locked : bool) (prov : option qty) : res (snap * bool) :=
   pos <- back_prop (ratios c) (v_pos_last v) ;;
   spd1 <- back_prop (ratios c) (v_spd_last v) ;;
   spd0 <- headq spd1 ;;
@@ -207,7 +211,7 @@ Definition instant (c : chain) (load : qty -> qty -> qty -> res qty) (ctl : opti
           else tl <- lastq tq ;; a <- q_divq tl J ;; back_prop (ratios c) a) ;;
   cur <- motor_current (c_motor c) d0 pwm ;;
   Ok ({| s_pos := pos; s_spd := spd; s_acc := acc; s_tq := tq; s_dtq := dtq; s_ltq := ltq;
-         s_pwm := pwm; s_cur := cur; s_locked := locked' |}, locked').
+         s_pwm := pwm; s_cur := cur; s_locked := locked'; s_lock_prev := locked; s_pwm_in := v_pwm v; s_tq0_in := v_tq0 v; s_dt := prov |}, locked').
 
 Definition live_of (s : snap) : res live :=
   p <- lastq (s_pos s) ;; w <- lastq (s_spd s) ;; a <- lastq (s_acc s) ;; t0 <- headq (s_tq s) ;;
@@ -241,8 +245,8 @@ Definition stop_check (sc : stopcond) (s : snap) : res bool :=
 
 (** one computed instant at time [t]: compute, record, make the values live *)
 Definition record_instant (c : chain) (load : qty -> qty -> qty -> res qty) (ctl : option (list rule)) (J : qty)
-    (t : qty) (v : live) (st : sys) : res (sys * snap) :=
-  r <- instant c load ctl J t (first_ltq0_of (y_hist st)) v (y_locked st) ;;
+    (t : qty) (v : live) (st : sys) (prov : option qty) : res (sys * snap) :=
+  r <- instant c load ctl J t (first_ltq0_of (y_hist st)) v (y_locked st) prov ;;
   let (s, lk) := r in
   v' <- live_of s ;;
   Ok ({| y_hist := (t, s) :: y_hist st; y_live := v'; y_locked := lk |}, s).
@@ -254,7 +258,7 @@ Fixpoint loop (c : chain) (load : qty -> qty -> qty -> res qty) (ctl : option (l
   | [] => Ok st
   | t :: ts' =>
       v <- integrate (y_live st) dt ;;
-      r <- record_instant c load ctl J t v st ;;
+      r <- record_instant c load ctl J t v st (Some dt) ;;
       let (st1, s) := r in
       halt <- match stop with Some sc => stop_check sc s | None => Ok false end ;;
       if halt then Ok st1 else loop c load ctl stop J dt ts' st1
@@ -278,7 +282,7 @@ Definition run (c : chain) (load : qty -> qty -> qty -> res qty) (ctl : option (
         | [] =>
             t0 <- q_new KTime zero (qu dt) ;;
             r0 <- record_instant c load ctl J t0 (y_live st)
-                    {| y_hist := []; y_live := y_live st; y_locked := false |} ;;
+                    {| y_hist := []; y_live := y_live st; y_locked := false |} None ;;
             Ok (t0, fst r0)
         end) ;;
   let (t0, st0) := r in
@@ -300,4 +304,32 @@ Definition initial (pos spd : qty) : sys :=
   {| y_hist := [];
      y_live := {| v_pos_last := pos; v_spd_last := spd; v_acc_last := None; v_tq0 := None; v_cur := None; v_pwm := one |};
      y_locked := false |}.
+
+(** ** operation sequences on one powertrain (what a user script does between and around runs) *)
+Inductive sop :=
+  | SRun (dt T : qty) (ctl : option (list rule)) (stop : option stopcond)
+  | SReset | SNewSolver
+  | SSetInit (pos spd : qty)          (* set the last element's position and speed; modelled only on an empty history *)
+  | SSetPwm (x : num A).
+
+Definition with_pwm (v : live) (p : num A) : live :=
+  {| v_pos_last := v_pos_last v; v_spd_last := v_spd_last v; v_acc_last := v_acc_last v; v_tq0 := v_tq0 v; v_cur := v_cur v; v_pwm := p |}.
+Definition step_op (c : chain) (load : qty -> qty -> qty -> res qty) (st : sys) (o : sop) : res sys :=
+  match o with
+  | SRun dt T ctl stop => run c load ctl stop dt T st
+  | SReset => reset st
+  | SNewSolver => Ok (new_solver st)
+  | SSetInit p w =>
+      match y_hist st with
+      | [] => let v := y_live st in
+              Ok {| y_hist := []; y_locked := y_locked st;
+                    y_live := {| v_pos_last := p; v_spd_last := w; v_acc_last := v_acc_last v; v_tq0 := v_tq0 v; v_cur := v_cur v; v_pwm := v_pwm v |} |}
+      | _ => Err OutOfFuel                  (* changing the state in the middle of a recorded simulation is outside the model *)
+      end
+  | SSetPwm x =>
+      p <- set_pwm x ;;
+      Ok {| y_hist := y_hist st; y_locked := y_locked st; y_live := with_pwm (y_live st) p |}
+  end.
+Fixpoint exec (c : chain) (load : qty -> qty -> qty -> res qty) (ops : list sop) (st : sys) : res sys :=
+  match ops with [] => Ok st | o :: ops' => st1 <- step_op c load st o ;; exec c load ops' st1 end.
 End Solver.
